@@ -30,7 +30,7 @@ def kindOf : String → Except String Kind
   | "anyOf" => pure .anyOf | "oneOf" => pure .oneOf | "allOf" => pure .allOf | "notF" => pure .notF
   | "any" => pure .any | "document" => pure .document | "mapping" => pure .mapping | "names" => pure .names
   | "required" => pure .required | "enumValues" => pure .enumValues | "default" => pure .default
-  | "schema" => pure .schema
+  | "schema" => pure .schema | "fieldState" => pure .fieldState
   | s => throw s!"unknown kind {s}"
 
 def catOf : String → Except String Cat
